@@ -288,6 +288,12 @@ def updateOne {ε} (c : Cfg ε) (aheadF : Rec ε → Run ε → Bool) (st : DSta
       | none => none
       | some t' => some ({ s with table := t' }, out ++ [rr])
 
+/-- report each completed / halted run once (first occurrence kept): the local run of a singleton pattern may
+have replaced more than one remote run in a list (fix F18). -/
+def dedupById {ε} : List (Rec ε) → List (Rec ε)
+  | [] => []
+  | r :: rest => r :: (dedupById rest).filter (fun x => !(x.id == r.id))
+
 /-- `on_distributed_update`, parameterised by the "ahead" test and by whether the
 updated list is filtered a second time after the completed/halted lists were applied and memorised (fix F4). -/
 def remoteStepG {ε} (aheadF : Rec ε → Run ε → Bool) (refilter : Bool)
@@ -300,7 +306,7 @@ def remoteStepG {ε} (aheadF : Rec ε → Run ε → Bool) (refilter : Bool)
   match foldlM' (updateOne c aheadF) (s3, []) upd2 with
   | none => none
   | some (s4, updOut) =>
-    some (s4, { completed := compOut, halted := haltOut, updated := updOut, loc := false })
+    some (s4, { completed := dedupById compOut, halted := dedupById haltOut, updated := updOut, loc := false })
 
 /-- the code as it stands in /repo (fixes F1, F3, F4 applied). -/
 def remoteStep {ε} (c : Cfg ε) (s : DState ε) (comp halt upd : List (Rec ε)) : Option (DState ε × Notif ε) :=
